@@ -89,10 +89,29 @@ func runGit(dir string, timeout time.Duration, cleanup func(), args ...string) (
 	return r, fmt.Errorf("git %v: the machine keeps refusing to start processes: %s", args, strings.TrimSpace(r.Err))
 }
 
+// runNoHome is runOnce without HOME and XDG_CONFIG_HOME in the environment (cron jobs, minimal containers).
+func runNoHome(dir string, timeout time.Duration, name string, args ...string) (runResult, error) {
+	noHome = true
+	defer func() { noHome = false }()
+	return runOnce(dir, timeout, name, args...)
+}
+
+// noHome: only set by runNoHome; a worker process runs one action at a time.
+var noHome bool
+
 func runOnce(dir string, timeout time.Duration, name string, args ...string) (runResult, error) {
 	cmd := exec.Command(name, args...)
 	cmd.Dir = dir
 	cmd.Env = baseEnv()
+	if noHome {
+		var env []string
+		for _, kv := range cmd.Env {
+			if !strings.HasPrefix(kv, "HOME=") && !strings.HasPrefix(kv, "XDG_CONFIG_HOME=") {
+				env = append(env, kv)
+			}
+		}
+		cmd.Env = env
+	}
 	var so, se bytes.Buffer
 	cmd.Stdout, cmd.Stderr = &so, &se
 	cmd.Stdin = nil
